@@ -32,7 +32,7 @@ theorem C18_second_run_fires_on_its_own_grid (cfg₁ cfg₂ : Cfg) (sc₁ sc₂ 
 
 /-- non-vacuity: the period trigger of `Core.rerunTrigs` (2 minutes, immediate) and its one-shot companion, first run over minutes 0..3, then
     over a grid that starts later: they fire on the second grid's own first bar and two minutes after it -/
-def Core.rerunCfg2 : Cfg := { markets := [⟨[600, 660, 720, 780, 840], false⟩], priceIdx := [600, 660, 720, 780, 840], Δ := 60, resample := false }
+def Core.rerunCfg2 : Cfg := { markets := [{ idx := [600, 660, 720, 780, 840], openCb := false }], priceIdx := [600, 660, 720, 780, 840], Δ := 60, resample := false }
 
 example : (actuatorRun Core.rerunCfg2 (trigsAfterRun Core.rerunCfg Core.rerunTrigs Core.rerunScript) Core.rerunScript).trace.filterMap fireOfEv
     = [⟨600, 0, ""⟩, ⟨720, 0, ""⟩, ⟨840, 0, ""⟩] := by decide
